@@ -315,32 +315,42 @@ pub fn classify_noise_tail(g: &[u8]) -> String {
     "other".into()
 }
 
-/// Safe cut points of a canonical frame: offsets c in 8..len such that, reading the frame as the
-/// protocol defines it (a run of four 0x1b starts an escape sequence whose next four bytes are its
-/// payload), no 0x1b run and no escape sequence is in progress after c bytes.
-pub fn safe_cuts(frame: &[u8]) -> Vec<usize> {
-    let mut v = Vec::new();
-    let mut i = 8;
+/// Safe cut points of the canonical frame of payload `p`: offsets c in 8..|frame| such that, following the
+/// frame's own structure (payload bytes; a literal escape sequence after every fourth consecutive 0x1b;
+/// zero padding; the end escape sequence), no 0x1b run and no escape sequence is in progress after c bytes.
+pub fn safe_cuts(p: &[u8]) -> (Vec<u8>, Vec<usize>) {
+    let frame = ref_encode(p);
+    let mut cuts = vec![8usize];
+    let mut pos = 8usize;
     let mut run = 0;
-    while i < frame.len() {
-        if run == 0 {
-            v.push(i);
-        }
-        if frame[i] == 0x1b {
+    for &b in p {
+        pos += 1;
+        if b == 0x1b {
             run += 1;
-            i += 1;
             if run == 4 {
-                // escape payload
-                i += 4;
+                // the literal escape sequence follows; after its 4 bytes nothing is in progress
+                pos += 4;
                 run = 0;
+                cuts.push(pos);
             }
         } else {
             run = 0;
-            i += 1;
+            cuts.push(pos);
         }
     }
-    v.retain(|c| *c < frame.len());
-    v
+    // padding zeros (only safe if the payload did not end inside a 0x1b run - then there is no padding
+    // anyway or the run was completed by a non-0x1b zero byte)
+    let body_end = frame.len() - 8;
+    while pos < body_end {
+        pos += 1;
+        run = 0;
+        cuts.push(pos);
+    }
+    let _ = run;
+    cuts.retain(|c| *c <= body_end);
+    cuts.sort();
+    cuts.dedup();
+    (frame, cuts)
 }
 
 /// a random stream drawn from all adversarial families
